@@ -4,6 +4,13 @@
 cd "$(dirname "$0")/.."
 export VERIF_DIR="$(pwd)"
 TIER="${3:-quick}"
+# under `vp run --with-repo` build against the run's own snapshot of /repo (in $VP_RUN_REPO), so that
+# patches applied to /repo meanwhile (mutant runs) cannot leak into the sweep; only ever done in
+# a snapshot of /verif, never in /verif itself
+if [ -n "${VP_RUN_REPO:-}" ] && [ "$(pwd)" != "/verif" ]; then
+  sed -i "s#/repo/#${VP_RUN_REPO}/#g" sim/Cargo.toml
+  echo "building against $VP_RUN_REPO"
+fi
 (cd sim && CARGO_NET_OFFLINE=true cargo build --release --offline 2>&1 | tail -1)
 bad=0
 for seed in $(seq $1 $2); do
